@@ -110,7 +110,7 @@ type c19Candidate struct {
 
 func (d c19) Execute(c *core.Case) *core.Result {
 	res := &core.Result{}
-	keys := []int{0, 1, 2, 3, 4, appKey, outsiderKey}
+	keys := []int{0, 1, 2, 3, 4, appKey, outsiderKey, app2Key}
 	cands := []c19Candidate{{"person-1", 1, -2}, {"person-2", 2, -2}, {"person-3", 3, -2}, {"person-4-untrusted", 4, -2}, {"outsider", 6, -2}, {"unsigned", 1, -1}}
 	type outcome struct {
 		pred   string
